@@ -379,8 +379,9 @@ func (p *printer) stmt(b *strings.Builder, s *S, ind string) {
 	case "=":
 		b.WriteString(ind + s.X + " = " + p.expr(s.E[0], true) + "\n")
 	case "+=":
-		if p.o.AugRebind {
-			b.WriteString(ind + s.X + " = " + s.X + " + (" + p.expr(s.E[0], true) + ")\n")
+		// asp evaluates x += e as x = x + e; the AddCopy repair has to reach that hidden + as well
+		if p.o.AugRebind || p.o.AddCopy {
+			b.WriteString(ind + s.X + " = " + p.cp(s.X) + " + (" + p.expr(s.E[0], true) + ")\n")
 		} else {
 			b.WriteString(ind + s.X + " += " + p.expr(s.E[0], true) + "\n")
 		}
@@ -388,8 +389,8 @@ func (p *printer) stmt(b *strings.Builder, s *S, ind string) {
 		b.WriteString(ind + s.X + "[" + p.expr(s.E[0], true) + "] = " + p.expr(s.E[1], true) + "\n")
 	case "[]+=":
 		i := p.expr(s.E[0], true)
-		if p.o.AugRebind {
-			b.WriteString(ind + s.X + "[" + i + "] = " + s.X + "[" + i + "] + (" + p.expr(s.E[1], true) + ")\n")
+		if p.o.AugRebind || p.o.AddCopy {
+			b.WriteString(ind + s.X + "[" + i + "] = " + p.cp(s.X+"["+i+"]") + " + (" + p.expr(s.E[1], true) + ")\n")
 		} else {
 			b.WriteString(ind + s.X + "[" + i + "] += " + p.expr(s.E[1], true) + "\n")
 		}
@@ -397,12 +398,12 @@ func (p *printer) stmt(b *strings.Builder, s *S, ind string) {
 		b.WriteString(ind + strings.Join(s.Xs, ", ") + " = " + p.expr(s.E[0], true) + "\n")
 	case "ex":
 		e := s.E[0]
-		if p.o.AugRebind && e.K == "m" && e.A[0].K == "n" && len(e.A) == 2 && (e.S == "append" || e.S == "extend") {
+		if (p.o.AugRebind || p.o.AddCopy) && e.K == "m" && e.A[0].K == "n" && len(e.A) == 2 && (e.S == "append" || e.S == "extend") {
 			x := e.A[0].S
 			if e.S == "append" {
-				b.WriteString(ind + x + " = " + x + " + [" + p.expr(e.A[1], true) + "]\n")
+				b.WriteString(ind + x + " = " + p.cp(x) + " + [" + p.expr(e.A[1], true) + "]\n")
 			} else {
-				b.WriteString(ind + x + " = " + x + " + (" + p.expr(e.A[1], true) + ")\n")
+				b.WriteString(ind + x + " = " + p.cp(x) + " + (" + p.expr(e.A[1], true) + ")\n")
 			}
 			return
 		}
@@ -446,6 +447,14 @@ func (p *printer) stmt(b *strings.Builder, s *S, ind string) {
 	default:
 		panic("print: unknown stmt kind " + s.K)
 	}
+}
+
+// cp wraps the left operand of a + that a statement hides (x += e, x.append(e)) when the AddCopy repair is on.
+func (p *printer) cp(x string) string {
+	if p.o.AddCopy {
+		return "_cp(" + x + ")"
+	}
+	return x
 }
 
 // Print renders a program. With any asp-side repair the helper definitions are prepended.
